@@ -307,12 +307,6 @@ pub fn nesting_depth(s: &str) -> usize {
     let mut m: i64 = 0;
     for b in s.bytes() {
         match b {
-            b'(' | b'[' | b'{' | b'<' | b'!' | b'-' | b'@' | b'*' | b'&' | b'~' => {
-                // prefix operators nest as well (`!!!!x`); counted conservatively below
-            }
-            _ => {}
-        }
-        match b {
             b'(' | b'[' | b'{' => {
                 d += 1;
                 m = m.max(d);
